@@ -129,6 +129,7 @@ class Engine:
         self.step_hooks: list = []   # callables (eng, st, label) run after every effectful call
         self.self_ref = None
         self.module_stack: list[str] = []
+        self.trace_fields = ()
 
     # ------------------------------------------------------------------ obligations
     def oblige(self, st: State, goal, name: str, kind: str, detail="", extra=None):
@@ -150,6 +151,8 @@ class Engine:
         if not isinstance(ref, ObjRef):
             raise Unsupported(f"field {field} of non-object {ref!r}")
         key = (ref.oid, field)
+        if heap is None and field in self.trace_fields:
+            st.events.append({"ev": "heap", "op": "read", "field": field, "oid": ref.oid, "perms": tuple(st.perms)})
         if key in st.heap:
             return st.heap[key]
         shape = self.reg.shapes.get(ref.shape)
@@ -170,7 +173,11 @@ class Engine:
         shape = self.reg.shapes.get(ref.shape)
         if shape is None or field not in shape.fields:
             raise Unsupported(f"write to undeclared field {ref.shape}.{field}")
+        saved, self.trace_fields = self.trace_fields, ()
         self.heap_read(st, ref, field)  # materialise initial value for old()
+        self.trace_fields = saved
+        if field in self.trace_fields:
+            st.events.append({"ev": "heap", "op": "write", "field": field, "oid": ref.oid, "perms": tuple(st.perms)})
         fty = shape.fields[field]
         if isinstance(fty, Ty) and not isinstance(fty, ObjT):
             val = coerce(val, fty)
@@ -293,7 +300,7 @@ class Engine:
         if isinstance(v, float):
             return [(OK, st, Val(z3.RealVal(repr(v)), REAL))]
         if isinstance(v, str):
-            return [(OK, st, Val(z3.StringVal(v), STR))]
+            return [(OK, st, Val(z3.StringVal(v), STR, template=v))]
         if v is Ellipsis:
             return [(OK, st, NONE)]
         raise Unsupported(f"constant {v!r}")
@@ -326,12 +333,15 @@ class Engine:
     def e_JoinedStr(self, node, st):
         # f-string: literal parts are kept, formatted parts are unknown strings
         t = z3.StringVal("")
+        template = ""
         for part in node.values:
             if isinstance(part, ast.Constant):
                 t = z3.Concat(t, z3.StringVal(str(part.value)))
+                template += str(part.value)
             else:
                 t = z3.Concat(t, z3.String(fresh_name("fmt")))
-        return [(OK, st, Val(z3.simplify(t), STR))]
+                template += "{" + ast.unparse(part.value) + "}"
+        return [(OK, st, Val(z3.simplify(t), STR, template=template))]
 
     def e_IfExp(self, node, st):
         def k(s, c):
